@@ -92,6 +92,7 @@ func runSelfTest(c *Ctx, def *propDef, repo, verif string) (bool, any) {
 	}
 	if c.Tier == "thorough" {
 		todo = append(todo, seededMutants(verif, def.ID)...)
+		todo = append(todo, refactorMutants(verif, def.ID)...)
 		// the same source under the other word size the build supports: every rule must hold there too (int is 32 bits:
 		// conversions, comparator extremes and constant folding differ)
 		if only := os.Getenv("VARMQLINT_ONLY"); only == "" || strings.Contains("config/GOARCH=386", only) {
@@ -318,4 +319,33 @@ func patchOverlay(repo, patch string) (map[string]string, error) {
 		files[filepath.Join(repo, r)] = string(nb)
 	}
 	return files, nil
+}
+
+// refactorMutants: behaviour-preserving refactorings written independently (sub-agents, given only a property text) and
+// confirmed here (they compile, the suite passes, the argument why they preserve behaviour was read): kept under
+// <verif>/refactors/<id>/ and replayed at the thorough tier against every property; any finding is a false alarm.
+func refactorMutants(verif, prop string) []mutant {
+	var out []mutant
+	patches, _ := filepath.Glob(filepath.Join(verif, "refactors", "*", "patch.diff"))
+	sort.Strings(patches)
+	for _, p := range patches {
+		id := filepath.Base(filepath.Dir(p))
+		if only := os.Getenv("VARMQLINT_ONLY"); only != "" && !strings.Contains("refactor/"+id, only) {
+			continue
+		}
+		why := "independently written behaviour-preserving refactoring"
+		if b, err := os.ReadFile(filepath.Join(filepath.Dir(p), "meta.json")); err == nil {
+			var meta struct {
+				Summary string `json:"summary"`
+			}
+			if json.Unmarshal(b, &meta) == nil && meta.Summary != "" {
+				why = meta.Summary
+				if len(why) > 160 {
+					why = why[:160]
+				}
+			}
+		}
+		out = append(out, mutant{ID: "refactor/" + id, Prop: prop, Benign: true, Patch: p, Why: why})
+	}
+	return out
 }
